@@ -367,6 +367,13 @@ int main(int argc, char *argv[])
 
   error_flag = asm_context.assemble();
 
+#ifdef NAKEN_ASM_VERIF
+#define NV_TRACE(...) if (getenv("NV_TRACE") != NULL) { fprintf(stderr, __VA_ARGS__); }
+#else
+#define NV_TRACE(...)
+#endif
+  NV_TRACE("NVM pass1 %d\n", error_flag);
+
   do
   {
     if (error_flag == 0 && asm_context.link() != 0)
@@ -377,6 +384,7 @@ int main(int argc, char *argv[])
     if (error_flag != 0)
     {
       printf("** Errors... bailing out\n");
+      NV_TRACE("NVM bail1 %d unlink\n", error_flag);
       unlink(outfile);
       break;
     }
@@ -392,16 +400,19 @@ int main(int argc, char *argv[])
     if (create_list == 1) { asm_context.write_list_file = 1; }
 
     error_flag = asm_context.assemble();
+    NV_TRACE("NVM pass2 %d\n", error_flag);
 
     if (error_flag != 0) { break; }
 
     if (asm_context.link() != 0)
     {
       error_flag = 1;
+      NV_TRACE("NVM link2 fail\n");
       break;
     }
 
     int retcode = file_write(outfile, &asm_context, file_type);
+    NV_TRACE("NVM write %d\n", retcode);
 
     if (retcode == -1)
     {
@@ -465,8 +476,11 @@ int main(int argc, char *argv[])
   if (error_flag != 0)
   {
     printf("*** Failed ***\n\n");
+    NV_TRACE("NVM final %d unlink\n", error_flag);
     unlink(outfile);
   }
+
+  NV_TRACE("NVM exit %d\n", error_flag == 0 ? EXIT_SUCCESS : EXIT_FAILURE);
 
   return error_flag == 0 ? EXIT_SUCCESS : EXIT_FAILURE;
 }
